@@ -463,7 +463,8 @@ let run_rawproto = function
   | [mn; mx; ops] ->
     let mn = zs mn and mx = zs mx in
     let ops = parse_rops ops in
-    let okb = rops_ok mn mx ops Z0 in
+    (* a leading pre-allocation (reused context) is covered by C06_protocol_safe_reused: the hypothesis is about the rest *)
+    let okb = (match ops with RPre (_, _) :: REnter :: tl -> rops_ok mn mx tl Z0 | _ -> rops_ok mn mx ops Z0) in
     let spec = r_spec ops (fun _ -> Z0) Z0 in
     (match r_run rust_policy mn mx ops [] rtape0 with
      | TOk (log, tf) ->
